@@ -426,6 +426,13 @@ func runC03() int {
 		}
 		return nil
 	})
+	// (d) connection-level scenarios under the interleaving explorer: the real connection handler and
+	// parser of a subscribed connection against concurrent publishers (replies and pushes share a stream)
+	concSum, concRan, concErr := rep.ConcStage("C03")
+	if concErr != nil {
+		fmt.Fprintln(os.Stderr, "seqmc:", concErr)
+		return 2
+	}
 	aliasN, aliasSample := runAliasProbe(rep)
 	samples = append(samples, aliasSample)
 	subN, subSample := runSubscriberScripts(rep)
@@ -442,6 +449,7 @@ func runC03() int {
 		"exhaustive":                         cov["exhaustive"] == true && pipesCut == 0,
 		"pipelines_cut_after_three_timeouts": pipesCut,
 		"single_command_cases":               tr,
+		"concurrent_stage":                   map[string]interface{}{"ran": concRan, "summary": concSum},
 		"alphabet_size":                      cov["alphabet_size"],
 		"pipelines":                          pipes,
 		"pipeline_runs":                      runs,
